@@ -144,7 +144,7 @@ class Registry:
 
     def add(self, c):
         if c.nested:
-            self.by_nested[c.nested_qualname] = c
+            self.by_nested[f'{c.fn.__module__}.{c.nested_qualname}'] = c
         else:
             cs = self.by_fn.setdefault(c.fn, [])
             cs.append(c)
